@@ -99,9 +99,10 @@ def run(ctx):
             ires, ms = r["results"], r.get("ms", [])
             # which operation meets the stall
             opnames = ["connect"] + [o[0] for o in sc["ops"]]
-            k = next((j for j, x in enumerate(ires) if x.startswith("err,")), None)
+            # (test_connected answers with a boolean: a stalled probe is `false`, and the connection is then broken - F45)
+            k = next((j for j, x in enumerate(ires) if x.startswith("err,") or x.startswith("bool,0")), None)
             if fl == "tokio":
-                timed = k is not None and re.match(r"^err,(network|connection),[^,]*,[^,]*,1", ires[k] or "")
+                timed = k is not None and (re.match(r"^err,(network|connection),[^,]*,[^,]*,1", ires[k] or "") or (ires[k].startswith("bool,0") and ms[k] >= T - 25))
                 if not timed:
                     hits["F20-async-no-io-timeout"] = hits.get("F20-async-no-io-timeout", 0) + 1
                     if max(ms or [0]) < 4 * T:
@@ -110,7 +111,7 @@ def run(ctx):
             if k is None:
                 obad.append((i, fl, "a stall at %s (%s) did not make any operation fail: %s" % (sc["pos"], sc["kind"], ires), r)); continue
             e = ires[k]
-            if not re.match(r"^err,(network|connection),[^,]*,[^,]*,1", e):
+            if not e.startswith("bool,0") and not re.match(r"^err,(network|connection),[^,]*,[^,]*,1", e):
                 obad.append((i, fl, "the error of the stalled operation does not identify itself as a timeout: %s (stall at %s)" % (e, sc["pos"]), r))
             if ms[k] > 2 * T + SLACK:
                 obad.append((i, fl, "stall at %s: the operation took %d ms with timeout %d ms (more than 2T + %d)" % (sc["pos"], ms[k], T, SLACK), r))
